@@ -121,6 +121,10 @@ def recTickCmd (ws : List String) : String :=
     match c.toNat? with
     | some c => joinSp (List.replicate c s!"ticks=true,endErr={if fa == "-" then "false" else "true"},quiet=true")
     | none => "bad-op"
+  | [_, fa, _, c, "slow"] =>     -- a collector slower than the interval: the same answers
+    match c.toNat? with
+    | some c => joinSp (List.replicate c s!"ticks=true,endErr={if fa == "-" then "false" else "true"},quiet=true")
+    | none => "bad-op"
   | [_, _, _, c, "reset"] =>
     match c.toNat? with
     | some c => joinSp (List.replicate c "ticks=true,reset,quiet=true")
